@@ -66,6 +66,36 @@ def gen(rng, tier):
         yield {"recs": recs, "queries": queries, "sort": rng.random() < 0.7, "gz_input": rng.random() < 0.25, "explicit_output": rng.random() < 0.4, "line_order": rng.choice(["grouped", "interleaved"]), "nosort_layout": rng.choice(["hr_then_v", "k2"])}
 
 
+def gen_large(rng, tier):
+    """files longer than any plausible write batch (thousands of lines), shuffled, indexed with sorting on"""
+    for t in range(1 if tier == "quick" else 5):
+        grid = list(range(10, 4000, 10))
+        contigs = rng.sample(CONTIGS, 3)
+        recs = []
+        for i in range(rng.randint(2000, 2400)):
+            a = rng.choice(grid)
+            b = a + rng.choice([0, 10, 50, 200])
+            typ = "R" if rng.random() < 0.2 else "H"
+            vs = []
+            if typ == "H":
+                for _ in range(rng.choice([1, 2, 2, 3])):
+                    st = rng.randint(a, b)
+                    vs.append([st, st + 1, f"rs{rng.randint(1, 99)}", rng.choice(["A", "C", "G"])])
+            recs.append({"t": typ, "chrom": rng.choice(contigs), "start": a, "end": b, "id": f"{'rep' if typ == 'R' else 'hap'}{i:04d}", "vars": vs})
+        rng.shuffle(recs)
+        ids_all = [r["id"] for r in recs]
+        queries = []
+        for shape in ["c", "c:a-b", "ids", "c:a-b+ids", "ids", "c:a-b"]:
+            a = rng.choice(grid)
+            q = {"c": None, "lo": None, "hi": None, "ids": sorted(rng.sample(ids_all, rng.randint(1, 6))) if "ids" in shape else None}
+            if shape != "ids":
+                q["c"] = rng.choice(contigs)
+                if shape.startswith("c:a-b"):
+                    q["lo"], q["hi"] = a, a + rng.choice([100, 500, 2000])
+            queries.append(q)
+        yield {"recs": recs, "queries": queries, "sort": True, "gz_input": t % 2 == 1, "explicit_output": t % 3 == 0, "line_order": rng.choice(["grouped", "interleaved"]), "nosort_layout": "hr_then_v"}
+
+
 def region_str(q):
     if q["c"] is None:
         return None
@@ -255,6 +285,21 @@ CHECK = Check(
             teardown=teardown,
             nontrivial=lambda c, o: C.jdump(c["recs"]) if isinstance(o, dict) and any(isinstance(r, list) and r for r in o.get("results", [])) else None,
             rule="seeded random .hap contents (1-7 haplotypes/repeats on 1-3 contigs incl. prefixed names, coordinates on a grid so that nested, overlapping, equal and single-position records occur, haplotypes with 0-3 variants, IDs distinct from contig names), lines grouped or interleaved (V directly after its H), plain or gzip input, default or explicit --output, sort / --no-sort (the latter on two tabix-compatible orders: H/R then V, and the documented `sort -k2,4` order in which V lines interleave with the H lines of later contigs); 14 queries per file over 'c', 'c:a-', 'c:a-b' with a, b on and one off every grid coordinate, ID subsets (incl. unknown IDs) alone or combined with a region; the indexed read is compared with the Lean fetch+containment model and with filtering a full read of the unindexed file (records and all their variants); the .hap.gz is decompressed and opened with pysam.TabixFile",
+        ),
+        Section(
+            name="large_files",
+            theorems=["C11.sort_keeps_every_record", "C11.sorted_records_tabix_ok", "C11.region_ab_eq_filter", "C11.ids_only_query"],
+            gen=gen_large,
+            impl=impl,
+            model_req=model_req,
+            model_obs=model_obs,
+            equal=equal,
+            oracle=oracle,
+            describe=describe,
+            setup=setup,
+            teardown=teardown,
+            nontrivial=lambda c, o: C.jdump([len(c["recs"]), c["queries"]]),
+            rule="the same comparison on shuffled files of 2000-2400 records (5000-7500 lines: more than any write batch or buffer of a few thousand lines), indexed with sorting on, plain and gzip input; six queries per file",
         ),
     ],
     trusted=["tabix: fetch(c:a-b) returns, in file order, the records on c overlapping [a,b] (1-based inclusive); tabix_index accepts a file whose sequence names are contiguous with non-decreasing starts", "bgzip / gzip"],
